@@ -330,6 +330,17 @@ class Discharger:
                     return False
             return False
         self.choke_ok = all(_only_from_apply(f.name) or _checked_entry(f.name, t) for f, b, t in fb.call_sites(lambda t: callee(t) in (asp.name, bpa.name)))
+        if not self.choke_ok:
+            # further ways into the code that applies a user procedure, each behind a count check made at the call: not decided
+            try:
+                rest = [(f, b, t) for f, b, t in fb.call_sites(lambda t: callee(t) in (asp.name, bpa.name))
+                        if not (_only_from_apply(f.name) or _checked_entry(f.name, t))]
+                if rest and all(callee(t) == asp.name and c08.site_behind_arity_checker(fb, f, b, ap.name) for f, b, t in rest):
+                    self.choke_ok = True
+                    if self.arity_ok:
+                        self.arity_ok = None
+            except Exception:
+                pass
         ctx.extra_cov["arity_precondition"] = self.arity_ok and self.choke_ok
         self.counts = {}
         # functions that may (transitively, over the over-approximated call graph) take a RefCell borrow: holding a guard
@@ -1433,8 +1444,55 @@ class Discharger:
             return None
         if div is None:
             return None
-        p = Prov(f)
         dom = f.dominators()
+        # the divisor is a local that a dominating test has just found different from zero (`while b != 0 { a % b }`, `if d == 0 { return }`),
+        # and nothing assigns it between the test and the division
+        def _root(blk_, op_, depth=3):
+            # the variable a temporary was copied from inside the block (`_13 = copy _4; Ne(move _13, 0)`)
+            l_ = mir.op_local(op_) if isinstance(op_, dict) and not (op_.get("place") or {}).get("proj") else None
+            while l_ is not None and depth > 0:
+                depth -= 1
+                src_ = [s_ for s_ in blk_["stmts"] if s_["k"] == "assign" and s_["place"]["local"] == l_ and not s_["place"]["proj"]]
+                if len(src_) == 1 and src_[0]["rv"]["k"] == "use" and src_[0]["rv"]["op"].get("k") in ("copy", "move") and \
+                        not (src_[0]["rv"]["op"].get("place") or {}).get("proj"):
+                    l_ = src_[0]["rv"]["op"]["place"]["local"]
+                else:
+                    break
+            return l_
+
+        def _is_zero(op_):
+            c_ = op_.get("c") if isinstance(op_, dict) and op_.get("k") == "const" else None
+            return isinstance(c_, dict) and c_.get("val") == 0 and not isinstance(c_.get("val"), bool)
+        dl = _root(f.blocks[b], div)
+        if dl is not None:
+            for bb, blk in enumerate(f.blocks):
+                tm = blk["term"]
+                if tm["k"] != "switch" or blk["cleanup"]:
+                    continue
+                tl = mir.op_local(tm["discr"])
+                nz = None
+                tg = dict((v_, x_) for v_, x_ in tm["targets"])
+                if _root(blk, tm["discr"]) == dl and tm.get("dty") != "bool":
+                    nz = tm["otherwise"] if 0 in tg else None
+                else:
+                    for s_ in reversed(blk["stmts"]):
+                        if s_["k"] == "assign" and s_["place"]["local"] == tl and not s_["place"]["proj"]:
+                            rv = s_["rv"]
+                            if rv["k"] == "binop" and rv["op"] in ("Eq", "Ne"):
+                                sides = (rv["l"], rv["r"])
+                                loc_side = [x for x in sides if x.get("k") != "const" and _root(blk, x) == dl]
+                                zero_side = [x for x in sides if _is_zero(x)]
+                                if loc_side and zero_side:
+                                    nz = tg.get(0) if rv["op"] == "Eq" else (tm["otherwise"] if 0 in tg else None)
+                            break
+                if nz is None or nz not in dom[b]:
+                    continue
+                region = {x for x in f.reachable(nz, avoid=[b]) if b in f.reachable(x)} | {nz}
+                writes = [1 for bb2, i2, s2 in f.stmts(region) if s2["k"] == "assign" and s2["place"]["local"] == dl and not s2["place"]["proj"]
+                          and not (bb2 == b)]
+                if not writes:
+                    return (True, "D-zero-checked", "the divisor was just found different from zero by a test that dominates the division, and is not assigned in between")
+        p = Prov(f)
         acc = mir.trace_access(f, div)
         for cb, ct in f.calls():
             if not callee_matches(ct, "values::check_division_by_zero"):
